@@ -208,72 +208,77 @@ def runCommand (env : Env) (args : List Bytes) : Option CmdRes :=
 
 def knownUnmodelledCommand (c : Bytes) : Bool := c == strBytes "help"
 
-/-- `main` -/
-def dfsMain (fs : HostFs) (ndebug : Bool) (screenCols : Option Nat) (argv : List Bytes) : RunRes :=
-  let (opts, rest) := getopt (argv.length + 1) argv []
-  let rec loop : List Opt → MainState → Except RunRes MainState
-    | [], st => .ok st
-    | .bad :: _, _ => .error { err := true, exit := 1 }
-    | .opt o arg :: more, st =>
-      match o with
-      | .file =>
-        match loaderOf arg with
-        | none => .error { err := true, exit := 1 }
-        | some (compressed, ld) =>
-          let isGz := compressed
-          match fs arg with
-          | .missing => .error { err := true, exit := 1 }
-          | .gzBad => .error { err := true, exit := 1 }
-          | hf =>
-            let _ := isGz
-            let m : Media := match hf with
-              | .raw secs _ => mediaOfArray secs
-              | .sparse n tbl => fun lba => if lba < n then some (tbl.getD lba (List.replicate 256 0)) else none
-              | _ => fun _ => none
-            match imageViews arg m ld ndebug with
-            | .fail => .error { err := true, exit := 1 }
+/-- one `--file` option: load, identify and attach the image -/
+def attachFile (fs : HostFs) (ndebug : Bool) (arg : Bytes) (st : MainState) : Except RunRes MainState :=
+  match loaderOf arg with
+  | none => .error { err := true, exit := 1 }
+  | some (_, ld) =>
+    match fs arg with
+    | .missing => .error { err := true, exit := 1 }
+    | .gzBad => .error { err := true, exit := 1 }
+    | hf =>
+      let m : Media := match hf with
+        | .raw secs _ => mediaOfArray secs
+        | .sparse n tbl => fun lba => if lba < n then some (tbl.getD lba (List.replicate 256 0)) else none
+        | _ => fun _ => none
+      match imageViews arg m ld ndebug with
+      | .fail => .error { err := true, exit := 1 }
+      | .abort s => .error { err := true, exit := 134, crash := some s }
+      | .unmodelled w => .error { unmodelled := some w }
+      | .ok views warned =>
+        let idx := st.medias.length
+        -- ViewFile::connect_drives: identify the file system of each formatted view
+        let rec cfgs : List View → Except RunRes (List DriveCfg)
+          | [] => .ok []
+          | v :: vs =>
+            let fmtR : Res (Option Format) :=
+              if v.isFormatted then identifyFileSystem (v.readBlock m) v.geom false ndebug else .ok none
+            match fmtR with
             | .abort s => .error { err := true, exit := 134, crash := some s }
-            | .unmodelled w => .error { unmodelled := some w }
-            | .ok views warned =>
-              let idx := st.medias.length
-              -- ViewFile::connect_drives: identify the file system of each formatted view
-              let rec cfgs : List View → Except RunRes (List DriveCfg)
-                | [] => .ok []
-                | v :: vs =>
-                  let fmtR : Res (Option Format) :=
-                    if v.isFormatted then identifyFileSystem (v.readBlock m) v.geom false ndebug else .ok none
-                  match fmtR with
-                  | .abort s => .error { err := true, exit := 134, crash := some s }
-                  | .err _ => .error { err := true, exit := 1 }
-                  | .ok f =>
-                    match cfgs vs with
-                    | .ok r => .ok ({ file := idx, view := v, fmt := f } :: r)
-                    | .error e => .error e
-              match cfgs views with
+            | .err _ => .error { err := true, exit := 1 }
+            | .ok f =>
+              match cfgs vs with
+              | .ok r => .ok ({ file := idx, view := v, fmt := f } :: r)
               | .error e => .error e
-              | .ok ds =>
-                match st.storage.connect ds st.policy with
-                | none => .error { err := true, exit := 1 }
-                | some s' => loop more { st with storage := s', medias := st.medias ++ [m], verbose := st.verbose || warned }
-      | .dir =>
-        if arg.length != 1 then .error { err := true, exit := 1 }
-        else loop more { st with ctx := { st.ctx with dir := arg.getD 0 0 } }
-      | .drive =>
-        match parseVolume arg with
-        | none => .error { err := true, exit := 1 }
-        | some (v, e) =>
-          if e < arg.length then .error { err := true, exit := 1 }
-          else loop more { st with ctx := { st.ctx with vol := v } }
-      | .driveFirst => loop more { st with policy := .first }
-      | .drivePhysical => loop more { st with policy := .physical }
-      | .showConfig => loop more { st with showConfig := true }
-      | .ui =>
-        match uiOfName arg with
-        | none => .error { err := true, exit := 1 }
-        | some u => loop more { st with ctx := { st.ctx with ui := u } }
-      | .verbose => loop more { st with verbose := true }
-      | .help => .error { unmodelled := some "help" }
-  match loop opts default with
+        match cfgs views with
+        | .error e => .error e
+        | .ok ds =>
+          match st.storage.connect ds st.policy with
+          | none => .error { err := true, exit := 1 }
+          | some s' => .ok { st with storage := s', medias := st.medias ++ [m], verbose := st.verbose || warned }
+
+/-- the option loop of `main` -/
+def optLoop (fs : HostFs) (ndebug : Bool) : List Opt → MainState → Except RunRes MainState
+  | [], st => .ok st
+  | .bad :: _, _ => .error { err := true, exit := 1 }
+  | .opt o arg :: more, st =>
+    match o with
+    | .file =>
+      match attachFile fs ndebug arg st with
+      | .error r => .error r
+      | .ok st' => optLoop fs ndebug more st'
+    | .dir =>
+      if arg.length != 1 then .error { err := true, exit := 1 }
+      else optLoop fs ndebug more { st with ctx := { st.ctx with dir := arg.getD 0 0 } }
+    | .drive =>
+      match parseVolume arg with
+      | none => .error { err := true, exit := 1 }
+      | some (v, e) =>
+        if e < arg.length then .error { err := true, exit := 1 }
+        else optLoop fs ndebug more { st with ctx := { st.ctx with vol := v } }
+    | .driveFirst => optLoop fs ndebug more { st with policy := .first }
+    | .drivePhysical => optLoop fs ndebug more { st with policy := .physical }
+    | .showConfig => optLoop fs ndebug more { st with showConfig := true }
+    | .ui =>
+      match uiOfName arg with
+      | none => .error { err := true, exit := 1 }
+      | some u => optLoop fs ndebug more { st with ctx := { st.ctx with ui := u } }
+    | .verbose => optLoop fs ndebug more { st with verbose := true }
+    | .help => .error { unmodelled := some "help" }
+
+/-- everything after option parsing: options already split by getopt -/
+def dfsRun (fs : HostFs) (ndebug : Bool) (screenCols : Option Nat) (opts : List Opt) (rest : List Bytes) : RunRes :=
+  match optLoop fs ndebug opts default with
   | .error r => r
   | .ok st =>
     match rest with
@@ -291,5 +296,10 @@ def dfsMain (fs : HostFs) (ndebug : Bool) (screenCols : Option Nat) (argv : List
           | .done ok o => { out := o.out, err := o.err || st.verbose || cfgSeen, exit := if ok then 0 else 1, files := o.files }
           | .threw o => { out := o.out, err := true, exit := 1, files := o.files }
           | .abort o s => { out := o.out, err := true, exit := 134, files := o.files, crash := some s }
+
+/-- `main` -/
+def dfsMain (fs : HostFs) (ndebug : Bool) (screenCols : Option Nat) (argv : List Bytes) : RunRes :=
+  let (opts, rest) := getopt (argv.length + 1) argv []
+  dfsRun fs ndebug screenCols opts rest
 
 end Beeb
